@@ -255,9 +255,10 @@ def _start(p, nsteps):
         if mode in ("obs_seq", "obs_dask"):
             return m.run_pipelines(processor=Processor(detector=det, pipeline=pipe, observation_mode=m),
                                    with_inherited_coords=True)
+        # round 2c: the progress bar is an argument of the method only (every other entry point leaves it on)
         return m.run_calibration(processor=Processor(detector=det, pipeline=pipe),
                                  output_dir=m.outputs.current_output_folder if m.outputs else None,
-                                 with_inherited_coords=True)
+                                 with_inherited_coords=True, **({"with_progress_bar": False} if p.get("no_bar") else {}))
     raise ValueError(f"entry {entry!r}")
 
 
